@@ -85,26 +85,39 @@ type c37Node struct {
 	book   addressbook.Interface
 	store  storage.StateStorer
 	sr     *wire.Streamer
-	db     *shed.DB
 	cancel context.CancelFunc
 }
 
+// The routetab handlers only *read* the Kademlia instance (connected peers,
+// depth, snapshots); it is therefore built once per process (with its own
+// address book and metrics DB) and shared by all executions. Everything the
+// handlers write to - route table, pending calls, state store, the service's
+// address book - is fresh per execution.
+var c37SharedKad *kademlia.Kad
+
+func c37Kad(x *mc.X) *kademlia.Kad {
+	if c37SharedKad == nil {
+		db, err := shed.NewDB("", &shed.Options{Driver: c37Driver + `:{"WriteBuffer":16384,"BlockCacheCapacity":16384}`})
+		x.NoErr(err, "shed")
+		kad, err := kademlia.New(c37Self, addressbook.New(mockstate.NewStateStore()), discmock.NewDiscovery(), p2pmock.New(), nil, nil, nil, db,
+			logging.New(io.Discard, 0), subscribe.NewSubPub(), kademlia.Options{BinMaxPeers: 10, NodeMode: aurora.NewModel().SetMode(aurora.FullNode)})
+		x.NoErr(err, "kademlia")
+		for _, a := range []boson.Address{c37Neighbor, c37Neigh2} {
+			kad.Outbound(p2p.Peer{Address: a, Mode: aurora.NewModel().SetMode(aurora.FullNode)})
+		}
+		c37SharedKad = kad
+	}
+	return c37SharedKad
+}
+
 func c37NewNode(x *mc.X, reply []byte, signed *aurora.Address) *c37Node {
-	db, err := shed.NewDB("", &shed.Options{Driver: c37Driver + `:{"WriteBuffer":16384,"BlockCacheCapacity":16384}`})
-	x.NoErr(err, "shed")
 	logger := logging.New(io.Discard, 0)
 	ab := addressbook.New(mockstate.NewStateStore())
-	p2ps := p2pmock.New()
-	kad, err := kademlia.New(c37Self, ab, discmock.NewDiscovery(), p2ps, nil, nil, nil, db, logger, subscribe.NewSubPub(),
-		kademlia.Options{BinMaxPeers: 10, NodeMode: aurora.NewModel().SetMode(aurora.FullNode)})
-	x.NoErr(err, "kademlia")
+	kad := c37Kad(x)
 	ctx, cancel := context.WithCancel(context.Background())
-	n := &c37Node{kad: kad, book: ab, db: db, cancel: cancel, store: mockstate.NewStateStore()}
+	n := &c37Node{kad: kad, book: ab, cancel: cancel, store: mockstate.NewStateStore()}
 	n.sr = &wire.Streamer{Reply: func(boson.Address, string, string, int) []byte { return reply }}
-	n.svc = New(c37Self, ctx, p2ps, n.sr, ab, c37NetworkID, lightnode.NewContainer(c37Self), kad, n.store, logger, Options{})
-	for _, a := range []boson.Address{c37Neighbor, c37Neigh2} {
-		kad.Outbound(p2p.Peer{Address: a, Mode: aurora.NewModel().SetMode(aurora.FullNode)})
-	}
+	n.svc = New(c37Self, ctx, p2pmock.New(), n.sr, ab, c37NetworkID, lightnode.NewContainer(c37Self), kad, n.store, logger, Options{})
 	// an honest stored route: routed target <- ... <- neighbour 2
 	n.svc.routeTable.SavePath(&pb.Path{Sign: []byte{1}, Bodys: [][]byte{{1}, {2}}, Items: [][]byte{c37Routed.Bytes(), c37Neigh2.Bytes()}})
 	if signed != nil {
@@ -115,7 +128,6 @@ func c37NewNode(x *mc.X, reply []byte, signed *aurora.Address) *c37Node {
 
 func (n *c37Node) close() {
 	n.cancel()
-	_ = n.db.Close()
 }
 
 // followUp: the local operations that consume routes, pending calls and
